@@ -21,7 +21,7 @@ func TestMakeExemplars(t *testing.T) {
 		"F31-function-map-with-optional-keys": {Ops: []Op{{Kind: "funcMap", Keys: []string{"a", "b"}, Vals: []int{1, 2}, N: 2},
 			{Kind: "put", H: 0, Keys: []string{"c"}, Vals: []int{3}}, {Kind: "plusFresh", H: 0, Vals: []int{4}, N: 2}}},
 		"toMap-attribute-registered-again": {Ops: []Op{{Kind: "toMap", Keys: []string{"id", "name", "id"}, Vals: []int{1, 2, 1007}}, {Kind: "put", H: 0, Keys: []string{"x"}, Vals: []int{5}}}},
-		"F14-bin-description-size": {Ops: []Op{{Kind: "binDescr", N: 0}, {Kind: "binDescr", N: 3}, {Kind: "binDescr", N: 1}}},
+		"F14-bin-description-size":         {Ops: []Op{{Kind: "binDescr", N: 0}, {Kind: "binDescr", N: 3}, {Kind: "binDescr", N: 1}}},
 		"put-existing-key-and-overlapping-merge": {Ops: []Op{{Kind: "realMap", Keys: []string{"a", "b"}, Vals: []int{1, 2}},
 			{Kind: "put", H: 0, Keys: []string{"a"}, Vals: []int{5}}, {Kind: "toMap", Keys: []string{"b", "c"}, Vals: []int{3, 4}}, {Kind: "plus", H: 0, H2: 1}}},
 	}
